@@ -39,6 +39,8 @@ def correspondence(ctx):
     for _ in range(5000 if ctx.tier == 'quick' else 200000):
         n = ctx.rng.randrange(5, 14)
         cases.append(f'rules|um|dir|{hexs([ctx.rng.choice(alpha) for _ in range(n)])}')
+    for s_ in long_strings(ctx, alpha, (60 if ctx.tier == 'quick' else 3000)):
+        cases.append(f'rules|um|dir|{hexs(s_)}')
     res = run_cases(cases, ctx.work)
     listed = {k.get('id') for k in ctx.known}
     inv = {v: k for k, v in BIDI.items()}
